@@ -42,6 +42,7 @@ BASES = {
     "box1": ("box", {"0": ((3,), F32)}),
     "box2": ("box", {"0": ((2, 3), F32)}),
     "box3": ("box", {"0": ((2, 1, 2), F32)}),
+    "box4": ("box", {"0": ((2, 1, 2, 2), F32)}),      # rank 4 (and, stacked, still rank 4): "Box of any rank"
     "img_hwc1": ("box", {"0": ((4, 5, 1), U8)}),
     "img_hwc3": ("box", {"0": ((4, 4, 3), U8)}),
     "img_chw": ("box", {"0": ((3, 4, 4), U8)}),
@@ -677,7 +678,7 @@ def main():
     chk.coverage["traces_validated_against_impl"] = len(cases) + sync_stats.get("sync", 0) + sync_stats.get("unwrap", 0)
     chk.coverage["distinct_nontrivial"] = len(distinct)
     chk.coverage["rule"] = ("random type-correct wrapper stacks (depth 1-4; VecFrameStack n_stack 1-5 with channels_order None/first/last or per key, VecTransposeImage incl. skip, "
-                            "VecExtractDictObs, VecMonitor, VecCheckNan) over DummyVecEnv (n_envs 1-3) of scripted envs cycling through 9 base spaces (Box rank 1-3, HWC/CHW images, 3 Dict "
+                            "VecExtractDictObs, VecMonitor, VecCheckNan) over DummyVecEnv (n_envs 1-3) of scripted envs cycling through 10 base spaces (Box rank 1-4, HWC/CHW images, 3 Dict "
                             "mixes), 9-23 ops with random extra resets; every cell of every observation and terminal observation compared; non-trivial = a frame stack deeper than 1 "
                             "AND an episode end AND (a second wrapper OR an episode shorter than the stack depth); distinct = distinct (base, stack, scripts, ops)")
     chk.notes["input_distribution"] = hist
